@@ -115,13 +115,11 @@ def _names_length(msg, row, n):
 
 
 def _result_times(world, r, lang):
-    if not isinstance(r, Stub) or not isinstance(r.attrs.get("_captions"), dict):
-        raise AnalysisError(f"SCCReader.read: the folded result is not a CaptionSet ({r!r:.50})")
-    d = r.attrs["_captions"]
+    from .foldutil import captions_by_language
+    d = captions_by_language(r, world.F, "SCCReader.read")
     if list(d) != [lang]:
         return ("languages", list(d))
     lst = d[lang]
-    lst = lst.attrs["__list__"] if isinstance(lst, Stub) else lst
     return ("ok", [(c.attrs.get("start"), c.attrs.get("end")) for c in lst])
 
 
